@@ -10,7 +10,7 @@ use vstd::prelude::*;
 verus! {
 //@prelude std_specs r32 attrmap pending
 
-pub enum SvgdxError { InvalidData(String), ReferenceError(ElRef), ParseError(String), DepthLimitExceeded(u32, u32), CircularRefError(String), Other }
+pub enum SvgdxError { InvalidData(String), ReferenceError(ElRef), ParseError(String), DepthLimitExceeded(u32, u32), CircularRefError(String), MissingBoundingBox(String), Other }
 pub type Result<T> = core::result::Result<T, SvgdxError>;
 #[verifier::external_body] pub struct ClassList { _p: u8 }
 #[verifier::external_body] pub struct OrderIndex { _p: u8 }
@@ -49,6 +49,16 @@ pub uninterp spec fn lookup(ctx: TransformerContext, r: ElRef) -> Option<SvgElem
 pub fn strp(s: &str) -> (r: Result<R32>) ensures (match strp_spec(s@) { Some(x) => r is Ok && val(r->Ok_0) == x, None => r is Err }) { unimplemented!() }
 #[verifier::external_body]
 pub fn extract_urlref(s: &str) -> (r: Option<ElRef>) ensures r == urlref_of(s@) { unimplemented!() }
+/// the element's `transform` attribute as a function on boxes (TransformAttr::from_str + apply: U-bbox, C08.transform.*)
+#[verifier::external_body] pub struct TransformAttr { _p: u8 }
+pub uninterp spec fn xf_parse(s: Seq<char>) -> Option<TransformAttr>;
+pub uninterp spec fn xf_apply(t: TransformAttr, b: (real, real, real, real)) -> (real, real, real, real);
+#[verifier::external_body]
+pub fn parse_transform(s: &String) -> (r: Result<TransformAttr>) ensures (match xf_parse(s@) { Some(t) => r == Ok::<TransformAttr, SvgdxError>(t), None => r is Err }) { unimplemented!() }
+impl TransformAttr {
+    #[verifier::external_body]
+    pub fn apply(&self, b: &BoundingBox) -> (r: BoundingBox) ensures bx(r) == xf_apply(*self, bx(*b)) { unimplemented!() }
+}
 impl BoundingBox {
     #[verifier::external_body]
     pub fn translated(&self, dx: R32, dy: R32) -> (r: BoundingBox)
@@ -65,6 +75,7 @@ pub open spec fn has_any(m: Map<Seq<char>, Seq<char>>, ks: Seq<&str>, n: int) ->
 #[verifier::external_body]
 pub fn any_attr(e: &SvgElement, names: &[&str]) -> (r: bool) ensures r == has_any(e.attrs@, names@, names@.len() as int) { unimplemented!() }
 impl SvgElement {
+    #[verifier::external_body] pub fn to_string(&self) -> String { unimplemented!() }
 //@item src/element.rs :: impl SvgElement :: fn get_attr
 //@ replace[R-optmap] <<<self.attrs.get(key).map(|x| x.to_owned())>>> => <<<match self.attrs.get(key) { Some(x) => Some(x.clone()), None => None }>>>
 //@ ensures
@@ -75,12 +86,17 @@ impl SvgElement {
 //@ - r == self.attrs@.dom().contains(key@)
 //@end
 //@item src/element.rs :: impl SvgElement :: fn has_foreign_position
-//@ strlit "rect" "use" "image" "svg" "foreignObject" "circle" "ellipse" "line" "cx" "cy" "x1" "y1" "x2" "y2" "x" "y"
+//@ strlit "rect" "box" "point" "use" "reuse" "image" "svg" "foreignObject" "circle" "ellipse" "line" "cx" "cy" "x1" "y1" "x2" "y2" "x" "y" "width" "height"
 //@ replace[R-any] <<<foreign.iter().any(|a| self.has_attr(a))>>> => <<<any_attr(self, foreign)>>>
 //@ body-start
 //@ | proof { reveal_with_fuel(has_any, 8); }
 //@ ensures
 //@ - r == foreign_pos(self.name@, self.attrs@)     @@C10.pending.foreign_spec
+//@end
+//@item src/element.rs :: impl SvgElement :: fn is_connector
+//@ strlit "start" "end" "line" "polyline"
+//@ ensures
+//@ - r == connector_pending(self.name@, self.attrs@)     @@C10.pending.connector_spec
 //@end
 //@item src/element.rs :: impl SvgElement :: fn has_pending_offset
 //@ strlit "text" "tspan" "feOffset" "dx" "dy"
@@ -113,7 +129,8 @@ impl TransformerContext {
 //@     && target_of(*self, *el) is Some && own_bbox(target_of(*self, *el)->Some_0) is Some && own_bbox(target_of(*self, *el)->Some_0)->Some_0 is Some ==> ({
 //@       let b0 = own_bbox(target_of(*self, *el)->Some_0)->Some_0->Some_0;
 //@       let dx = off(el.attrs@, "x"@)->Some_0; let dy = off(el.attrs@, "y"@)->Some_0;
-//@       r->Ok_0 is Some && bx(r->Ok_0->Some_0) == (val(b0.x1) + dx, val(b0.y1) + dy, val(b0.x2) + dx, val(b0.y2) + dy) })     @@C08.use.translated.api
+//@       let moved = (val(b0.x1) + dx, val(b0.y1) + dy, val(b0.x2) + dx, val(b0.y2) + dy);
+//@       r->Ok_0 is Some && bx(r->Ok_0->Some_0) == (if el.attrs@.dom().contains("transform"@) { xf_apply(xf_parse(el.attrs@["transform"@])->Some_0, moved) } else { moved }) })     @@C08.use.translated.api
 //@ decreases
 //@ - self.elem_map.count() + 2     @@C01.clip.terminates.api
 //@end
@@ -124,12 +141,16 @@ impl TransformerContext {
 //@ replace?[R-optmap] <<<translate_y.map(|ty| strp(&ty)).unwrap_or(Ok(0.))?>>> => <<<(match translate_y { Some(ty) => strp(&ty), None => Ok(0.) })?>>>
 //@ replace?[R-refmut] <<<if let Some(ref mut bbox) = &mut el_bbox {\n                    el_bbox = Some(bbox.translated(>>> => <<<if let Some(bbox) = el_bbox {\n                    el_bbox = Some(bbox.translated(>>>
 //@ replace[R-refmut] <<<if let (Some(clip_path), Some(ref mut bbox)) = (el.get_attr("clip-path"), &mut el_bbox) {>>> => <<<if let (Some(clip_path), Some(bbox)) = (el.get_attr("clip-path"), el_bbox) {>>>
+//@ replace[R-parse] <<<let transform: TransformAttr = transform.parse()?;>>> => <<<let transform: TransformAttr = parse_transform(&transform)?;>>>
 //@ ensures
 //@ - r is Ok && (el.name@ == "use"@ || el.name@ == "reuse"@) && !unresolved(el.name@, el.attrs@) && !el.attrs@.dom().contains("clip-path"@)
 //@     && target_of(*self, *el) is Some && own_bbox(target_of(*self, *el)->Some_0) is Some && own_bbox(target_of(*self, *el)->Some_0)->Some_0 is Some ==> ({
 //@       let b0 = own_bbox(target_of(*self, *el)->Some_0)->Some_0->Some_0;
 //@       let dx = off(el.attrs@, "x"@)->Some_0; let dy = off(el.attrs@, "y"@)->Some_0;
-//@       r->Ok_0 is Some && bx(r->Ok_0->Some_0) == (val(b0.x1) + dx, val(b0.y1) + dy, val(b0.x2) + dx, val(b0.y2) + dy) })     @@C08.use.translated
+//@       let moved = (val(b0.x1) + dx, val(b0.y1) + dy, val(b0.x2) + dx, val(b0.y2) + dy);
+//@       r->Ok_0 is Some && bx(r->Ok_0->Some_0) == (if el.attrs@.dom().contains("transform"@) { xf_apply(xf_parse(el.attrs@["transform"@])->Some_0, moved) } else { moved }) })     @@C08.use.translated @@C08.use.own_transform
+//@ - r is Ok && (el.name@ == "use"@ || el.name@ == "reuse"@) && !unresolved(el.name@, el.attrs@) && target_of(*self, *el) is Some
+//@     && unresolved(target_of(*self, *el)->Some_0.name@, target_of(*self, *el)->Some_0.attrs@) ==> false     @@C08.use.pending_target_is_error @@C10.use.pending_target_is_error
 //@ - (el.name@ == "use"@ || el.name@ == "reuse"@) && !unresolved(el.name@, el.attrs@) && target_of(*self, *el) is Some && own_bbox(target_of(*self, *el)->Some_0) is Some && own_bbox(target_of(*self, *el)->Some_0)->Some_0 is Some
 //@     && ((el.attrs@.dom().contains("x"@) && strp_spec(el.attrs@["x"@]) is None) || (el.attrs@.dom().contains("y"@) && strp_spec(el.attrs@["y"@]) is None)) ==> r is Err     @@C10.use.unresolved_offset_is_error @@C08.use.unresolved_offset_is_error
 //@ - r is Ok && (el.name@ == "use"@ || el.name@ == "reuse"@) && unresolved(el.name@, el.attrs@) ==> r->Ok_0 is None     @@C10.pending.use_instance
